@@ -135,12 +135,13 @@ class Signal(Command):
             elif children:
                 watcher.send_signal_children(pid, signum)
             else:
+                if recursive:
+                    # the descendants first: they are looked up through
+                    # the process, which may be gone once it got the signal
+                    watcher.send_signal_children(pid, signum, recursive=True)
+
                 # send to the given pid
                 watcher.send_signal(pid, signum)
-
-                if recursive:
-                    # also send to the children
-                    watcher.send_signal_children(pid, signum, recursive=True)
 
     def validate(self, props):
         super(Signal, self).validate(props)
